@@ -225,7 +225,14 @@ func (c *C10Case) runCLIKind(ctx *Ctx, o *Outcome, fail func(string, string, ...
 	args, files := c.cliArgs()
 	a := runInProc(ctx, args, files, c.MapSeeds[0], c.Clocks[0])
 	runInProc(ctx, []string{"shuffle", "sites", "-r", "1", "-i", "in.fa", "--seed", fmt.Sprint(c.Seed + 1)}, files, c.MapSeeds[0], c.Clocks[0])
-	b := runInProc(ctx, args, files, c.MapSeeds[1], c.Clocks[1])
+	var b inprocResult
+	if c.Flag || c.Op == "bootstrap" {
+		// the second execution finds what the first one wrote (a re-run onto the same output names)
+		b = runInProc(ctx, args, files, c.MapSeeds[1], c.Clocks[1], a.files)
+		o.Add("cli_second_execution_over_the_files_of_the_first", 1)
+	} else {
+		b = runInProc(ctx, args, files, c.MapSeeds[1], c.Clocks[1])
+	}
 	o.Add("sched_steps", int64(a.sr.Steps+b.sr.Steps))
 	for _, x := range []inprocResult{a, b} {
 		for _, p := range x.sr.Panics {
